@@ -442,7 +442,7 @@ func (g *gen) cloneFresh(v *V) *V {
 			f2.V = g.cloneFresh(f.V)
 			c.Fields = append(c.Fields, f2)
 		}
-	case "ptr":
+	case "ptr", "iface":
 		c.Elem = g.cloneFresh(v.Elem)
 	case "slice":
 		c.Elems = nil
